@@ -931,27 +931,85 @@ def r48_year_parts(ctx):
                   got.get("century"), got.get("expanded_year"), want_cc,
                   want_x), ("C07", "C08"))
     tp = ctx.model.cls("TimePoint")
-    exp = {"century": ("(abs(self._year) %% %d) // %d" % (want_x, want_cc),),
-           "year_of_century": ("abs(self._year) %% %d" % want_cc,),
-           "year_of_decade": ("abs(self._year) % 10",),
-           "expanded_year_digits": ("abs(self._year / %d)" % want_x,
-                                    "abs(self._year) // %d" % want_x,
-                                    "abs(self._year // %d)" % want_x)}
-    for pname, forms in exp.items():
+    # a year part is a digit field of |year|: (divisor, modulus) meaning
+    # (|year| // divisor) % modulus; modulus None = all higher digits
+    exp = {"century": (want_cc, want_x // want_cc),
+           "year_of_century": (1, want_cc),
+           "year_of_decade": (1, 10),
+           "expanded_year_digits": (want_x, None)}
+    for pname, want_field in exp.items():
         g = tp.methods.get(pname)
         if g is None:
             continue
         rep.anchor(rule, "year decompositions")
-        rets = [U(n.value).replace(g.self_name + ".", "self.")
-                for n in walk_no_nested(g.node) if isinstance(n, ast.Return)]
-        forms = tuple(U(ast.parse(x, mode="eval").body) for x in forms)
-        rep.check(len(rets) == 1 and rets[0] in forms, rule,
+        rets = [n.value for n in walk_no_nested(g.node)
+                if isinstance(n, ast.Return) and n.value is not None]
+        fields = [_digit_field(r, g.self_name) for r in rets]
+        shown = [U(r) for r in rets]
+        if len(rets) == 1 and fields[0] is None:
+            rep.undecided(rule, ctx.fkey(g, None, "writer-radix"), g.loc(),
+                          "TimePoint.%s returns %s, which is not a "
+                          "quotient/remainder of abs(year) this rule reads" %
+                          (pname, shown), ("C07", "C08", "C17"))
+            continue
+        rep.check(len(rets) == 1 and fields[0] == want_field, rule,
                   ctx.fkey(g, None, "writer-radix"), g.loc(),
-                  "%s is %s" % (pname, rets[0] if rets else "-"),
-                  "TimePoint.%s returns %s; with %d-digit century and "
-                  "%d-digit year-of-century fields it must be %s" % (
-                      pname, rets, w_cc, w_yy, forms[0]), ("C07", "C08",
-                                                           "C17"))
+                  "%s is the digit field (|year| // %s) %% %s" % (
+                      (pname,) + want_field),
+                  "TimePoint.%s returns %s = digit field %s of |year|; with "
+                  "%d-digit century and %d-digit year-of-century fields it "
+                  "must be (|year| // %s) %% %s" % (
+                      (pname, shown, fields, w_cc, w_yy) + want_field),
+                  ("C07", "C08", "C17"))
+
+
+def _digit_field(e, selfn):
+    """(divisor, modulus) such that e == (abs(self._year) // divisor) %
+    modulus, for expressions built from abs(year), //, / under abs/int and
+    %; None if e is not of that family."""
+    def is_absyear(x):
+        return isinstance(x, ast.Call) and U(x.func) == "abs" and len(
+            x.args) == 1 and U(x.args[0]) == "%s._year" % selfn
+
+    def k(x):
+        if isinstance(x, ast.Constant) and isinstance(x.value, int) and \
+                not isinstance(x.value, bool) and x.value > 0:
+            return x.value
+        return None
+    if is_absyear(e):
+        return (1, None)
+    # abs(year / K), abs(year // K), int(abs(year) / K)
+    if isinstance(e, ast.Call) and U(e.func) in ("abs", "int") and len(
+            e.args) == 1 and isinstance(e.args[0], ast.BinOp) and isinstance(
+                e.args[0].op, (ast.Div, ast.FloorDiv)):
+        inner = e.args[0]
+        d = k(inner.right)
+        base = inner.left
+        if d and (U(base) == "%s._year" % selfn or is_absyear(base)):
+            return (d, None)
+        return None
+    if isinstance(e, ast.BinOp) and isinstance(e.op, ast.FloorDiv):
+        d = k(e.right)
+        inner = _digit_field(e.left, selfn)
+        if d and inner is not None:
+            dv, md = inner
+            if md is None:
+                return (dv * d, None)
+            if md % d == 0:
+                # ((y // dv) % md) // d == (y // (dv*d)) % (md // d)
+                return (dv * d, md // d)
+        return None
+    if isinstance(e, ast.BinOp) and isinstance(e.op, ast.Mod):
+        m = k(e.right)
+        inner = _digit_field(e.left, selfn)
+        if m and inner is not None:
+            dv, md = inner
+            if md is None or md % m == 0:
+                return (dv, m)
+            if m % md == 0:
+                return (dv, md)
+        return None
+    return None
 
 
 RULES.update({"R47": r47_one_based_guards, "R48": r48_year_parts})
